@@ -40,43 +40,65 @@ def d1(ctx, F):
     ctx.check(len(cl) == 1 and cl[0]["derived"], "C04.D1.shared-counter", "requestor-clone-handwritten", "Requestor's Clone is the derived one (Arc::clone of the shared parts)")
 
 
+NEXT_ID = "selium_protocol::request_id::RequestId::next_id"
+
+
+def request_body(ctx, F):
+    """Requestor::request's coroutine with its private (async) helpers — queue_request, any extracted tail — looked through"""
+    r0 = F.one_body(r"^selium::streams::request_reply::requestor::Requestor::<E, D, ReqItem, ResItem>::request::\{closure#0\}$")
+    ctx.touch(r0)
+    for p_, b_ in F.bodies.items():
+        if p_.startswith(RQ + "Requestor::<E, D, ReqItem, ResItem>::queue_request"):
+            ctx.touch(b_)
+    return F.inlined(r0, keep=(NEXT_ID,))
+
+
+def spawned_bodies(F, body):
+    """coroutine bodies handed to tokio::spawn in `body` (an async block, or a call of an async fn), helpers looked through"""
+    ib = F.inlined(body)
+    out = []
+    for c in ib.calls():
+        if strip_generics(c.callee) in ("tokio::task::spawn::spawn", "tokio::spawn") and c.args:
+            r = flow.root(ib, c.args[0], through_calls=())
+            if r[0] == "rv" and r[1]["k"] == "agg" and r[1].get("closure") in F.bodies:
+                out.append(F.bodies[r[1]["closure"]])
+    return out
+
+
 def d2(ctx, F):
-    q = F.one_body(r"^selium::streams::request_reply::requestor::Requestor::<E, D, ReqItem, ResItem>::queue_request::\{closure#0\}$")
-    r = F.one_body(r"^selium::streams::request_reply::requestor::Requestor::<E, D, ReqItem, ResItem>::request::\{closure#0\}$")
-    ctx.touch(q, r)
-    nid = q.calls_to("selium_protocol::request_id::RequestId::next_id")
-    ins = [c for c in q.calls() if strip_generics(c.callee) == "std::collections::hash::map::HashMap::insert" and "oneshot::Sender" in c.full]
-    if ctx.check(len(nid) == 1 and len(ins) == 1, "C04.D2.register", "queue_request:shape", "queue_request draws one id and inserts one pending entry", q.span):
-        idv = flow.derived(q, {nid[0].dest["l"]}, calls=())
+    r = request_body(ctx, F)
+    nid = r.calls_to(NEXT_ID)
+    ins = [c for c in r.calls() if strip_generics(c.callee) == "std::collections::hash::map::HashMap::insert" and "oneshot::Sender" in c.full]
+    ch = [c for c in r.calls() if strip_generics(c.callee) == "tokio::sync::oneshot::channel"]
+    idv = set()
+    if ctx.check(len(nid) == 1 and len(ins) == 1, "C04.D2.register", "queue_request:shape", "a request draws one id and inserts one pending entry", r.span):
+        idv = flow.derived(r, {nid[0].dest["l"]}, calls=())
         ctx.check(op_local(ins[0].args[1]) in idv, "C04.D2.register", "queue_request:key-not-id", "the pending entry is keyed by the id just drawn", ins[0].span)
-        ch = [c for c in q.calls() if strip_generics(c.callee) == "tokio::sync::oneshot::channel"]
         okv = False
         if len(ch) == 1:
-            chv = flow.derived(q, {ch[0].dest["l"]}, calls=())
+            chv = flow.derived(r, {ch[0].dest["l"]}, calls=())
             okv = op_local(ins[0].args[2]) in chv
-            # returned tuple (id, rx)
-            rets = [(i, rv) for i, j, pl, rv, s in q.assigns() if pl["l"] == 0 and rv["k"] == "agg" and rv.get("agg") == "tuple"]
-            okr = len(rets) == 1 and op_local(rets[0][1]["ops"][0]) in idv and op_local(rets[0][1]["ops"][1]) in chv
-            ctx.check(okr, "C04.D2.register", "queue_request:returns", "queue_request returns (that id, the receiver paired with the inserted sender)", q.span)
+            # the receiver that request() waits on is the other half of that very channel
+            to = [c for c in r.calls() if strip_generics(c.callee) == "tokio::time::timeout::timeout"]
+            okr = len(to) == 1 and op_local(to[0].args[1]) in flow.derived(r, {ch[0].dest["l"]}, calls=("core::ops::try_trait::Try::branch",))
+            ctx.check(okr, "C04.D2.register", "queue_request:returns", "request() waits on the receiver paired with the inserted sender", (to or ins)[0].span)
         ctx.check(okv, "C04.D2.register", "queue_request:value", "the inserted value is the sender half of the fresh one-shot channel", ins[0].span)
-    # request(): header value derives from the queue_request result; registration precedes send
+    # registration precedes send; the header value is the id
     aw = flow.awaits(r)
-    qa = [a for a in aw if a.source is not None and a.source.is_(RQ + "Requestor::queue_request")]
     sa = [a for a in aw if a.source is not None and strip_generics(a.source.callee) == "futures_util::sink::SinkExt::send"]
-    if not ctx.check(len(qa) == 1 and len(sa) == 1, "C04.D2.before-send", "request:shape", "request() awaits queue_request once and sends one frame", r.span):
+    if not ctx.check(len(ins) == 1 and len(sa) == 1, "C04.D2.before-send", "request:shape", "request() registers once and sends one frame", r.span):
         return
-    rb = qa[0].ready_block()
-    ctx.check(rb is not None and r.dominates(rb, sa[0].source.bb), "C04.D2.before-send", "request:send-before-register",
-              "the frame is sent only after queue_request completed (pending entry registered first)", sa[0].span)
-    qv = flow.derived(r, {qa[0].poll.dest["l"]}, calls="all")
+    ctx.check(ins[0].target is not None and r.dominates(ins[0].target, sa[0].source.bb), "C04.D2.before-send", "request:send-before-register",
+              "the frame is sent only after the pending entry was registered", sa[0].span)
     hins = [c for c in r.calls() if strip_generics(c.callee) == "std::collections::hash::map::HashMap::insert" and "String, alloc::string::String" in c.full]
+    idall = flow.derived(r, {nid[0].dest["l"]}, calls="all") if nid else set()
     ok = False
     for c in hins:
         k = flow.root(r, c.args[1])
         kk = flow.const_of(k[1]) if k[0] == "const" else None
-        if kk == HDR and op_local(c.args[2]) in qv:
+        if kk == HDR and op_local(c.args[2]) in idall:
             ok = True
-    ctx.check(ok, "C04.D2.header", "request:header-not-id", "the `req_id` header carries the id returned by queue_request", (hins or [r])[0].span)
+    ctx.check(ok, "C04.D2.header", "request:header-not-id", "the `req_id` header carries the id the pending entry was registered under", (hins or [r])[0].span)
     # the frame sent contains that header map
     hv = flow.derived(r, {op_local(c.args[0]) for c in hins} | {flow.root_local(r, c.args[0]) for c in hins}, calls=("core::option::Option::Some",))
     fr = [(i, rv, s) for i, j, pl, rv, s in K.aggregates(r, "selium_protocol::frame::MessagePayload")]
@@ -85,8 +107,11 @@ def d2(ctx, F):
 
 
 def d3(ctx, F):
-    p = F.one_body(r"^selium::streams::request_reply::requestor::poll_replies::\{closure#0\}$")
-    ctx.touch(p)
+    sp = spawned_bodies(F, F.body(RQ + "poll_replies"))
+    if not ctx.check(len(sp) == 1, "C04.D3.match-by-id", "poll_replies:no-task", "poll_replies spawns exactly one reply-reader task", F.body(RQ + "poll_replies").span):
+        return
+    ctx.touch(sp[0])
+    p = F.inlined(sp[0])
     snd = [c for c in p.calls() if strip_generics(c.callee) == "tokio::sync::oneshot::Sender::send"]
     rem = [c for c in p.calls() if strip_generics(c.callee) == "std::collections::hash::map::HashMap::remove" and "oneshot::Sender" in c.full]
     get = [c for c in p.calls() if strip_generics(c.callee) == "std::collections::hash::map::HashMap::get" and "String" in c.full]
@@ -112,6 +137,9 @@ def d3(ctx, F):
     payloads = {pl["l"] for i, j, pl, rv, s in p.assigns() if rv["k"] == "use" and rv["op"].get("k") in ("move", "copy") and
                 any(isinstance(e, dict) and e.get("vn") == "Message" for e in rv["op"]["pl"]["p"])}
     pv = flow.derived(p, payloads, calls=("core::option::Option::as_ref",))
+    # the payload may have been moved into a helper's parameter: same value, same type
+    ptys = {p.local_ty(l) for l in payloads}
+    payloads = payloads | {l for l in flow.derived(p, payloads, calls=()) if p.local_ty(l) in ptys}
     ctx.check(mb in payloads and op_local(get[0].args[0]) in pv, "C04.D3.same-frame", "poll_replies:message-other-frame",
               "the message handed over and the header consulted belong to the same reply frame", snd[0].span)
     # a remove happens for every hand-over: `get` without remove would let a late reply reach a later request
@@ -141,15 +169,14 @@ def d4(ctx, F):
 
 
 def d5(ctx, F):
-    r = F.one_body(r"^selium::streams::request_reply::requestor::Requestor::<E, D, ReqItem, ResItem>::request::\{closure#0\}$")
+    r = request_body(ctx, F)
     aw = flow.awaits(r)
-    qa = [a for a in aw if a.source is not None and a.source.is_(RQ + "Requestor::queue_request")]
     to = [c for c in r.calls() if strip_generics(c.callee) == "tokio::time::timeout::timeout"]
-    if not ctx.check(len(to) == 1 and len(qa) == 1, "C04.D5.timeout", "request:no-timeout", "request() wraps the wait for the reply in tokio::time::timeout", r.span):
+    if not ctx.check(len(to) == 1, "C04.D5.timeout", "request:no-timeout", "request() wraps the wait for the reply in tokio::time::timeout", r.span):
         return
     # rx = second element of the queue_request result
     rxs = {pl["l"] for i, j, pl, rv, s in r.assigns() if r.local_ty(pl["l"]).startswith("tokio::sync::oneshot::Receiver<")}
-    rxv = flow.derived(r, rxs, calls=())
+    rxv = {l for l in flow.derived(r, rxs, calls=()) if "oneshot::Receiver<" in r.local_ty(l)}
     users = [c for c in r.calls() if any(op_local(a) in rxv for a in c.args)]
     ctx.check(bool(rxs) and users == [to[0]], "C04.D5.timeout", "request:rx-awaited-elsewhere",
               "the one-shot receiver is consumed only by timeout(..) (users: %s)" % [c.name() for c in users], to[0].span)
@@ -160,6 +187,17 @@ def d5(ctx, F):
     ctx.check(okd, "C04.D5.timeout", "request:timeout-not-configured-value", "the duration is self.request_timeout", to[0].span)
     ta = [a for a in aw if a.source is to[0]]
     ctx.check(len(ta) == 1, "C04.D5.timeout", "request:timeout-not-awaited", "the timeout future is awaited", to[0].span)
+    # the wait for the reply holds no lock: a guard of the shared writer / pending map kept across it would serialise the clones' requests
+    # outside their own timeouts
+    if len(ta) == 1 and ta[0].yield_bb is not None:
+        held = []
+        for l in r.locals:
+            if l["ty"].startswith(("tokio::sync::mutex::MutexGuard<", "tokio::sync::mutex::OwnedMutexGuard<", "std::sync::poison::mutex::MutexGuard<", "std::sync::MutexGuard<",
+                                   "tokio::sync::rwlock::", "tokio::sync::mutex::MappedMutexGuard<")):
+                if flow.maybe_init_blocks(r, l["id"])[1][ta[0].yield_bb]:
+                    held.append(l.get("debug") or l["ty"][:40])
+        ctx.check(not held, "C04.D5.no-lock-across-wait", "request:lock-held-across-wait",
+                  "no mutex guard is alive while request() waits for the reply (held: %s)" % held, to[0].span)
     # Elapsed -> RequestTimeout
     me = [c for c in r.calls() if strip_generics(c.callee) == "core::result::Result::map_err" and "tokio::time::error::Elapsed" in c.full]
     ok = False
